@@ -1,5 +1,6 @@
 """Sequential symbolic executor over go/ssa (JSON form produced by ssajson)."""
 import json
+import os
 import sys
 import time
 import z3
@@ -183,6 +184,8 @@ class Stats:
         self.merged_ifs = 0
         self.merged_calls = 0
         self.procs = 1
+        self.diff = {"sampled": 0, "agree": 0, "disagree": 0, "unknown": 0, "errors": 0, "notes": []}
+        self.witnesses = []
 
     def to_dict(self):
         d = dict(self.__dict__)
@@ -205,6 +208,10 @@ class Stats:
         self.max_unwind = max(self.max_unwind, d["max_unwind"])
         if len(self.samples) < 3:
             self.samples.extend(d["samples"][: 3 - len(self.samples)])
+        self.witnesses = (self.witnesses + d.get("witnesses", []))[:8]
+        for k in ("sampled", "agree", "disagree", "unknown", "errors"):
+            self.diff[k] += d.get("diff", {}).get(k, 0)
+        self.diff["notes"] = (self.diff["notes"] + d.get("diff", {}).get("notes", []))[:6]
 
 
 class Executor:
@@ -217,7 +224,7 @@ class Executor:
         self.cfg = cfg or {}
         self.solver = z3.Solver()
         # resource limit instead of a wall-clock timeout: deterministic, and no timer threads (the process forks)
-        self.solver.set("rlimit", int(self.cfg.get("rlimit", 400000000)))
+        self.solver.set("rlimit", int(self.cfg.get("rlimit", 80000000)))
         self._sstack = []
         self.stats = Stats()
         self.violations = []
@@ -302,6 +309,51 @@ class Executor:
         if res == "unknown":
             self.stats.unknown += 1
         return res
+
+    # ------------------------------------------------------------------ second-solver cross-check (thorough tier)
+    def cross_check(self, st, bad, label):
+        """re-discharge a sampled unsat obligation with z3 4.8.12 (/usr/bin/z3) and cvc5 through SMT-LIB2 text"""
+        n = self.cfg.get("diff_every", 0)
+        if not n:
+            return
+        self._diffctr = getattr(self, "_diffctr", 0) + 1
+        if self._diffctr % n != 1 % n:
+            return
+        import subprocess
+        import tempfile
+        s = z3.Solver()
+        for c in st.pc:
+            s.add(c)
+        s.add(bad)
+        text = "(set-logic ALL)\n" + s.to_smt2()
+        fd, path = tempfile.mkstemp(prefix="symgo_diff_", suffix=".smt2", dir=self.cfg.get("tmpdir"))
+        with open(fd, "w") as f:
+            f.write(text)
+        d = self.stats.diff
+        d["sampled"] += 1
+        try:
+            for name, cmd in (("z3-4.8.12", ["/usr/bin/z3", "-smt2", "-T:60", path]), ("cvc5", ["cvc5", "--lang", "smt2", "--tlimit=60000", path])):
+                try:
+                    r = subprocess.run(cmd, stdout=subprocess.PIPE, stderr=subprocess.STDOUT, text=True, timeout=90)
+                    out = r.stdout.strip()
+                except Exception as ex:  # noqa
+                    out = "timeout-or-failure: %s" % ex
+                first = out.splitlines()[0].strip() if out else ""
+                if "(error" in out or first not in ("sat", "unsat", "unknown"):
+                    d["errors"] += 1
+                    d["notes"].append("%s on %s: %s" % (name, label, out[:120]))
+                elif first == "unsat":
+                    d["agree"] += 1
+                elif first == "unknown" or first.startswith("timeout"):
+                    d["unknown"] += 1
+                else:
+                    d["disagree"] += 1
+                    self.inconclusive.append("solver disagreement on %s: %s answers %s, z3 %s answered unsat" % (label, name, first, z3.get_version_string()))
+        finally:
+            try:
+                os.unlink(path)
+            except OSError:
+                pass
 
     def model_for(self, st, extra=None):
         """find a model of pc/\\extra, preferring small values for nondet ints"""
@@ -766,6 +818,16 @@ class Executor:
         self.inconclusive.extend(d["inconclusive"])
 
     def on_path_end(self, st):
+        k = self.cfg.get("witness_paths", 0)
+        if k and len(self.stats.witnesses) < k and st.nbranch > 0:
+            # translator validation: a concrete input that drives exactly this (passing) path; the native run of the
+            # same harness on it must agree (no tape mismatch, no failed assumption, no assertion failure, no panic)
+            m = self.model_for(st)
+            if m is not None:
+                self.stats.witnesses.append(self.tape_from_model(st, m))
+        self._on_path_end_samples(st)
+
+    def _on_path_end_samples(self, st):
         if len(self.stats.samples) < 3 and st.nbranch > 0:
             self.stats.samples.append({
                 "path_condition_size": len(st.pc),
